@@ -9,4 +9,5 @@ INVARIANT C19_OrderInvariant
 INVARIANT C19_RedundancyInvariant
 INVARIANT C19_NoBadDataRemoved
 INVARIANT C19_NoBadDataChi2
+INVARIANT C19_RnTestPasses
 INVARIANT C19_AltAlgorithms
